@@ -218,6 +218,40 @@ func vh_C09_PanicHandlerReplaced() {
 	vfReach("end")
 }
 
+// workers are also created by PreAllocWorkerSize, possibly from several goroutines and alongside the spawn loop: the
+// bound on concurrently executing jobs holds all the same
+func vh_C09_PreAllocConcurrently() {
+	vfSetMapOrder(2)
+	l := &c09Log{started: map[int]int{}}
+	max := vfRange("max", 1, 2)
+	p := c09Pool(l, max, 0, 4, 0)
+	var wg sync.WaitGroup
+	for g := 0; g < 2; g++ {
+		wg.Add(1)
+		go func() {
+			p.PreAllocWorkerSize(vfRange("prealloc", 1, 3))
+			wg.Done()
+		}()
+	}
+	wg.Wait()
+	jobs := max + 2
+	accepted := 0
+	for i := 0; i < jobs; i++ {
+		if p.Schedule(l.job(i, false, true)) == nil {
+			accepted++
+		}
+	}
+	vfQuiesce()
+	ran := 0
+	for i := 0; i < jobs; i++ {
+		vfAssert("accepted-job-ran-exactly-once", l.started[i] <= 1)
+		ran += l.started[i]
+	}
+	vfAssert("accepted-job-ran-exactly-once", ran == accepted)
+	vfAssert("never-more-than-maximum-running", l.maxRunning <= max)
+	vfReach("end")
+}
+
 func vh_C09_Invoke() {
 	vfSetMapOrder(2)
 	l := &c09Log{started: map[int]int{}}
